@@ -22,6 +22,7 @@ type Session struct {
 	participantIDs   SequentialIDGenerator
 	participantMutex sync.RWMutex
 	participants     map[uint32]*Participant
+	ended            bool
 
 	entityIDs   SequentialIDGenerator
 	entityMutex sync.RWMutex
@@ -79,6 +80,35 @@ func (s *Session) RemoveParticipant(p *Participant) {
 	defer s.participantMutex.Unlock()
 
 	delete(s.participants, p.ID)
+}
+
+// Join adds the participant to the session, unless the session has ended
+// because its last participant left (see Leave): it then returns false.
+func (s *Session) Join(p *Participant) bool {
+	s.participantMutex.Lock()
+	defer s.participantMutex.Unlock()
+
+	if s.ended {
+		return false
+	}
+	s.participants[p.ID] = p
+	return true
+}
+
+// Leave removes the participant from the session and reports whether the
+// session ended because it was the last one. This is reported to exactly one
+// leaver, and a session that has ended can't be joined anymore: the caller can
+// safely dispose of it.
+func (s *Session) Leave(p *Participant) bool {
+	s.participantMutex.Lock()
+	defer s.participantMutex.Unlock()
+
+	delete(s.participants, p.ID)
+	if len(s.participants) != 0 || s.ended {
+		return false
+	}
+	s.ended = true
+	return true
 }
 
 func (s *Session) GetParticipants() []*Participant {
